@@ -21,6 +21,11 @@ inductive Resp where
   | sent                  -- the empty confirmation of a send-waiting one-way call
   deriving Repr, DecidableEq
 
+/-- an error is a node's last answer to a request -/
+def Resp.isErr : Resp → Bool
+  | .err _ => true
+  | _ => false
+
 structure Router where
   id : MsgId
   call : CallId           -- the call whose reply channel the router points to
@@ -52,22 +57,34 @@ inductive Label where
   | sendOk (confirm : Bool)                                  -- SendMsg succeeded (confirm: a send-waiting one-way request)
   | sendFail (kind : Nat) (confirm : Bool)                   -- stream broken / SendMsg failed / context already ended
   | recvReply (id : MsgId) (r : Resp)                        -- receiver: a message with this id came in
-  | streamDown                                               -- receiver: `cancelPendingMsgs`
+  | streamDown                                               -- receiver: `cancelPendingMsgs(false)`: every pending request
+  | replaceCancel                                            -- reconnect, under the write lock, before it replaces the stream: `cancelPendingMsgs(true)`: the requests that have been handed to a stream
   | deleteRouter (id : MsgId)                                -- deferred deletion of a streaming router
   deriving Repr, DecidableEq
 
-/-- `routeResponse`: deliver to the router's call, delete the router unless streaming -/
+/-- `routeResponse`: deliver to the router's call; the router is deleted unless it is a streaming one
+    and the response is not an error (`!router.streaming || resp.err != nil`: an error is the node's
+    last answer to a request) -/
 def route (s : State) (id : MsgId) (r : Resp) : State :=
   match s.routers.find? (fun x => x.id == id) with
   | none => s
   | some x =>
     { s with deliveries := s.deliveries ++ [⟨id, x.call, r⟩],
-             routers := if x.streaming then s.routers else s.routers.filter (fun y => y.id != id) }
+             routers := if x.streaming && !r.isErr then s.routers else s.routers.filter (fun y => y.id != id) }
 
-/-- `cancelPendingMsgs` -/
+/-- `cancelPendingMsgs`: every pending request is answered with the stream-down error and its router is
+    deleted, streaming or not (no further reply to any of them can arrive on a stream that is down) -/
 def cancelAll (s : State) : State :=
   { s with deliveries := s.deliveries ++ s.routers.map (fun x => ⟨x.id, x.call, .err 0⟩),
-           routers := s.routers.filter (·.streaming) }
+           routers := [] }
+
+/-- `cancelPendingMsgs(true)`: the pending requests that have been handed to a stream (`markWritten`, just
+    before `SendMsg`) are answered with the stream-down error and lose their router; the others — still
+    queued, or held by the sender that is about to send them on the new stream — are left alone.  It runs
+    under the write lock of `streamMut`, so no send is in progress: "handed to a stream" is `sent`. -/
+def cancelWritten (s : State) : State :=
+  { s with deliveries := s.deliveries ++ (s.routers.filter (fun x => s.sent.contains x.id)).map (fun x => ⟨x.id, x.call, .err 0⟩),
+           routers := s.routers.filter (fun x => !s.sent.contains x.id) }
 
 def step (s : State) : Label → Option State
   | .register id c streaming =>
@@ -96,6 +113,7 @@ def step (s : State) : Label → Option State
       some (route (if confirm then route s' id .sent else s') id (.err kind))
   | .recvReply id r => some (route s id r)
   | .streamDown => some (cancelAll s)
+  | .replaceCancel => some (cancelWritten s)
   | .deleteRouter id => some { s with routers := s.routers.filter (fun y => y.id != id) }
 
 def exec (s : State) : List Label → Option State
